@@ -11,3 +11,12 @@ cd /verif
 rm -rf $S/repo && rsync -a --exclude target --exclude .git /repo/ $S/repo/
 cd /verif && VX_UNIT=C python3 tools/splice.py $S/repo contracts/mpd_client/*.vspec > $S/report_c.json || exit 2
 cd $S/repo && verus --crate-type=lib --edition=2024 --crate-name mpd_client -L dependency=$D -L dependency=$S --extern bytes=$(ls $D/libbytes-*.rlib) --extern tracing=$(ls $D/libtracing-*.rlib) --extern tokio=$S/libtokio.rlib --import tokio=$S/vx_tokio.vir --extern vx_base=$S/libvx_base.rlib --import vx_base=$S/vx_base.vir --extern vx_spec=$S/libvx_spec.rlib --import vx_spec=$S/vx_spec.vir --extern mpd_protocol=$S/libmpd_protocol.rlib --import mpd_protocol=$S/mpd_protocol.vir "$@" mpd_client/src/lib.rs 2>&1 | grep -v "^warning: unused\|^warning: unnecessary" | grep -B2 -A14 "^error\|verification results" | head -${HEAD:-120}
+python3 - <<'PY'
+import json,glob
+for f in glob.glob('/var/tmp/vxs/report*.json'):
+    try:
+        r=json.load(open(f))
+    except Exception: continue
+    for x in r.get('file_rules',[]):
+        if x['rule']=='degraded': print('DEGRADED', x['text'][:300])
+PY
